@@ -53,7 +53,7 @@ fn spec_c01() -> FullWorldSpec {
     p.w_slash = 5;
     p.w_donate = 3;
     p.dust_permille = 150;
-    FullWorldSpec { profile: p, tune_cfg: tune_c01, monitors: || vec![Box::new(c01::C01::new()) as Box<dyn Monitor>], steer: None, lenient_bank: false }
+    FullWorldSpec { profile: p, tune_cfg: tune_c01, monitors: || vec![Box::new(c01::C01::new()) as Box<dyn Monitor>], steer: None, lenient_bank: false, build: None }
 }
 
 fn spec_c02() -> FullWorldSpec {
@@ -73,6 +73,7 @@ fn spec_c02() -> FullWorldSpec {
         monitors: || vec![Box::new(c02::C02::default()) as Box<dyn Monitor>],
         steer: None,
         lenient_bank: false,
+        build: None,
     }
 }
 
@@ -81,7 +82,7 @@ fn spec_c03() -> FullWorldSpec {
     p.w_convert = 12;
     p.w_burn_from = 3;
     p.w_slash = 5;
-    FullWorldSpec { profile: p, tune_cfg: |c, r| { tune_short_periods(c, r); tune_slashy(c, r) }, monitors: || vec![Box::new(c03::C03::default()) as Box<dyn Monitor>], steer: None, lenient_bank: false }
+    FullWorldSpec { profile: p, tune_cfg: |c, r| { tune_short_periods(c, r); tune_slashy(c, r) }, monitors: || vec![Box::new(c03::C03::default()) as Box<dyn Monitor>], steer: None, lenient_bank: false, build: None }
 }
 
 fn spec_c04() -> FullWorldSpec {
@@ -90,7 +91,7 @@ fn spec_c04() -> FullWorldSpec {
     p.w_burn_from = 2;
     p.w_registry = 3;
     p.w_ugi = 7;
-    FullWorldSpec { profile: p, tune_cfg: |c, r| { tune_short_periods(c, r); tune_slashy(c, r) }, monitors: || vec![Box::new(c04::C04::default()) as Box<dyn Monitor>], steer: None, lenient_bank: false }
+    FullWorldSpec { profile: p, tune_cfg: |c, r| { tune_short_periods(c, r); tune_slashy(c, r) }, monitors: || vec![Box::new(c04::C04::default()) as Box<dyn Monitor>], steer: None, lenient_bank: false, build: None }
 }
 
 fn spec_c05() -> FullWorldSpec {
@@ -111,6 +112,7 @@ fn spec_c05() -> FullWorldSpec {
         monitors: || vec![Box::new(c05::C05::default()) as Box<dyn Monitor>],
         steer: None,
         lenient_bank: false,
+        build: None,
     }
 }
 
@@ -119,7 +121,7 @@ fn spec_c06() -> FullWorldSpec {
     p.w_slash = 12;
     p.w_check = 8;
     p.w_withdraw = 10;
-    FullWorldSpec { profile: p, tune_cfg: tune_c01, monitors: || vec![Box::new(c06::C06::default()) as Box<dyn Monitor>], steer: None, lenient_bank: false }
+    FullWorldSpec { profile: p, tune_cfg: tune_c01, monitors: || vec![Box::new(c06::C06::default()) as Box<dyn Monitor>], steer: None, lenient_bank: false, build: None }
 }
 
 fn spec_c07() -> FullWorldSpec {
@@ -136,6 +138,7 @@ fn spec_c07() -> FullWorldSpec {
         monitors: || vec![Box::new(c07::C07::default()) as Box<dyn Monitor>],
         steer: None,
         lenient_bank: false,
+        build: None,
     }
 }
 
@@ -154,6 +157,7 @@ fn spec_c08() -> FullWorldSpec {
         monitors: || vec![Box::new(c08::C08::default()) as Box<dyn Monitor>],
         steer: None,
         lenient_bank: false,
+        build: None,
     }
 }
 
@@ -164,7 +168,7 @@ fn spec_c09() -> FullWorldSpec {
     p.w_faults = 4;
     p.w_registry = 3;
     p.dust_permille = 200;
-    FullWorldSpec { profile: p, tune_cfg: |c, r| { tune_c01(c, r); tune_slashy(c, r) }, monitors: || vec![Box::new(c09::C09::new()) as Box<dyn Monitor>], steer: None, lenient_bank: false }
+    FullWorldSpec { profile: p, tune_cfg: |c, r| { tune_c01(c, r); tune_slashy(c, r) }, monitors: || vec![Box::new(c09::C09::new()) as Box<dyn Monitor>], steer: None, lenient_bank: false, build: None }
 }
 
 fn spec_c13() -> FullWorldSpec {
@@ -181,6 +185,7 @@ fn spec_c13() -> FullWorldSpec {
         monitors: || vec![Box::new(c13::C13::default()) as Box<dyn Monitor>],
         steer: None,
         lenient_bank: false,
+        build: None,
     }
 }
 
@@ -191,7 +196,7 @@ fn spec_c16() -> FullWorldSpec {
     p.w_burn_from = 5;
     p.w_convert = 10;
     p.w_invalid = 3;
-    FullWorldSpec { profile: p, tune_cfg: |c, r| { tune_short_periods(c, r); tune_slashy(c, r) }, monitors: || vec![Box::new(c16::C16::default()) as Box<dyn Monitor>], steer: None, lenient_bank: false }
+    FullWorldSpec { profile: p, tune_cfg: |c, r| { tune_short_periods(c, r); tune_slashy(c, r) }, monitors: || vec![Box::new(c16::C16::default()) as Box<dyn Monitor>], steer: None, lenient_bank: false, build: None }
 }
 
 fn spec_c19() -> FullWorldSpec {
@@ -200,19 +205,49 @@ fn spec_c19() -> FullWorldSpec {
     p.w_accrue = 16;
     p.w_donate = 4;
     p.w_registry = 3;
-    FullWorldSpec { profile: p, tune_cfg: tune_short_periods, monitors: || vec![Box::new(c19::C19::default()) as Box<dyn Monitor>], steer: None, lenient_bank: false }
+    FullWorldSpec { profile: p, tune_cfg: tune_short_periods, monitors: || vec![Box::new(c19::C19::default()) as Box<dyn Monitor>], steer: None, lenient_bank: false, build: None }
 }
 
 fn spec_c14() -> FullWorldSpec {
     let mut p = Profile::economy("c14");
     p.steps = (100, 300);
-    FullWorldSpec { profile: p, tune_cfg: no_tune, monitors: || vec![Box::new(c14::C14::default()) as Box<dyn Monitor>], steer: Some(crate::rewardworld::steer), lenient_bank: false }
+    FullWorldSpec { profile: p, tune_cfg: no_tune, monitors: || vec![Box::new(c14::C14::default()) as Box<dyn Monitor>], steer: Some(crate::rewardworld::steer), lenient_bank: false, build: None }
 }
 
 fn spec_c15() -> FullWorldSpec {
     let mut p = Profile::economy("c15");
     p.steps = (100, 300);
-    FullWorldSpec { profile: p, tune_cfg: no_tune, monitors: || vec![Box::new(c15::C15::default()) as Box<dyn Monitor>], steer: Some(crate::rewardworld::steer), lenient_bank: false }
+    FullWorldSpec { profile: p, tune_cfg: no_tune, monitors: || vec![Box::new(c15::C15::default()) as Box<dyn Monitor>], steer: Some(crate::rewardworld::steer), lenient_bank: false, build: None }
+}
+
+fn spec_c18() -> FullWorldSpec {
+    let mut p = Profile::economy("c18");
+    p.steps = (80, 240);
+    FullWorldSpec {
+        profile: p,
+        tune_cfg: |c, r| {
+            c.n_users = r.range(3, 12) as usize;
+        },
+        monitors: || vec![Box::new(c18::C18::default()) as Box<dyn Monitor>],
+        steer: Some(crate::tokenworld::steer),
+        lenient_bank: false,
+        build: Some(crate::tokenworld::build),
+    }
+}
+
+fn spec_c17() -> FullWorldSpec {
+    let mut p = Profile::economy("c17");
+    p.steps = (160, 400);
+    FullWorldSpec {
+        profile: p,
+        tune_cfg: |c, r| {
+            c.extra_denom = r.chance(1, 2);
+        },
+        monitors: || vec![Box::new(c17::C17::default()) as Box<dyn Monitor>],
+        steer: Some(crate::dispworld::steer),
+        lenient_bank: false,
+        build: None,
+    }
 }
 
 pub fn defs() -> Vec<PropDef> {
@@ -282,6 +317,16 @@ pub fn defs() -> Vec<PropDef> {
             id: "C16", salt: 16, budget: (600, 12_000, 100), spec: spec_c16,
             required: &[("c16.mirror_checks", 1), ("c16.bsei_op.transfer", 1), ("c16.bsei_op.transfer_from.via_allowance", 1), ("c16.bsei_op.burn_from.via_allowance", 1), ("c16.bsei_op.unbond_bsei", 1), ("c16.bsei_op.unbond_bsei.via_allowance", 1), ("c16.bsei_op.convert_bsei_stsei", 1), ("c16.bsei_op.convert_stsei_bsei", 1), ("c16.bsei_op.send_dummy", 1), ("c16.self_transfers", 1)],
             rule: "full-world histories heavy on bSei token operations; a case is a successful bSei-touching operation; distinct = (op kind, via allowance?, self transfer?, #holders, decade of supply)",
+        },
+        PropDef {
+            id: "C17", salt: 17, budget: (600, 15_000, 100), spec: spec_c17,
+            required: &[("c17.swaps_judged", 1), ("c17.dispatches_judged", 1), ("c17.swaps_with_extra_denom", 1), ("c17.swaps_one_sided_bonded", 1), ("c17.swaps_one_sided_balances", 1), ("c17.dispatches_with_nothing", 1)],
+            rule: "dispatcher world (real dispatcher driven by the hub address; real hub / reward contract / registry behind it; stub swap and oracle); a case is a SwapToRewardDenom or DispatchRewards execution; distinct = (kind, decades of holdings, one-sided bonded?, decades of bonded, decade of price, direction, extra denom? / keeper rate class)",
+        },
+        PropDef {
+            id: "C18", salt: 18, budget: (1000, 20_000, 100), spec: spec_c18,
+            required: &[("c18.conservation_checks", 1), ("c18.worlds_with_initial_balances", 1), ("c18.mints_by_others_rejected", 1), ("c18.burns_by_others_rejected", 1), ("c18.burns_by_hub", 1), ("c18.transfer_from_ok", 1), ("c18.burn_from_ok", 1), ("c18.send_from_ok", 1), ("c18.spends_rejected_expired", 1), ("c18.spends_rejected_over_allowance", 1), ("c18.spends_under_expiring_allowance", 1), ("c18.burns_requiring_rate_refresh", 1)],
+            rule: "token world (both real tokens instantiated with random initial balances incl. repeated / differently-cased addresses and zero rows; reward hook on a dummy; real hub) driven by arbitrary principals; a case is a successful token operation; distinct = (op kind, #bSei accounts, #stSei accounts, #live allowances)",
         },
         PropDef {
             id: "C19", salt: 19, budget: (400, 8_000, 100), spec: spec_c19,
